@@ -449,7 +449,7 @@ def report(ctx, run, results, schemas, cap=8):
                 return
 
 
-TOOL_TIMEOUT = 10      # seconds; a tool run that does not return is a violation, never a stalled check
+TOOL_TIMEOUT = 30      # seconds; a tool run that does not return is a violation, never a stalled check
 
 
 def run_multi(ctx, b, items):
